@@ -9,3 +9,4 @@ def run(ck):
     gradient.r3_transform_status(ck, P)
     gradient.r4_sentinel_contents(ck, P)
     gradient.r6_transform_column(ck, P)
+    gradient.r7_projective_split(ck, P)
